@@ -736,10 +736,160 @@ fn binop_name(op: BinOp) -> String {
     format!("{:?}", op)
 }
 
+// ---------------------------------------------------------------------------------------------
+// Alpha-renaming facts (development aid): every local binding with the exact byte ranges of its
+// declaration and uses, so that a tool can rename locals in a scratch copy without changing
+// behaviour.  Written to $RAGC_RENAME_DIR/<crate>.rename.json when that variable is set.
+struct RenameV<'tcx> {
+    tcx: TyCtxt<'tcx>,
+    // hir_id -> (name, decl spans, use spans, shorthand flags, tainted)
+    binds: std::collections::BTreeMap<(u32, u32), Bind>,
+    shorthand_expr: std::collections::HashSet<Span>,
+    shorthand_pat: std::collections::HashSet<Span>,
+}
+struct Bind {
+    name: String,
+    decl: Vec<(Span, bool)>,
+    uses: Vec<(Span, bool)>,
+    param: bool,
+}
+fn hid(h: rustc_hir::HirId) -> (u32, u32) {
+    (h.owner.def_id.local_def_index.as_u32(), h.local_id.as_u32())
+}
+impl<'tcx> rustc_hir::intravisit::Visitor<'tcx> for RenameV<'tcx> {
+    fn visit_pat(&mut self, p: &'tcx rustc_hir::Pat<'tcx>) {
+        if let rustc_hir::PatKind::Struct(_, fields, _) = p.kind {
+            for f in fields {
+                if f.is_shorthand {
+                    self.shorthand_pat.insert(f.pat.span);
+                }
+            }
+        }
+        if let rustc_hir::PatKind::Binding(_, id, ident, _) = p.kind {
+            let sh = self.shorthand_pat.contains(&p.span);
+            let e = self.binds.entry(hid(id)).or_insert_with(|| Bind { name: ident.name.to_string(), decl: vec![], uses: vec![], param: false });
+            e.decl.push((ident.span, sh));
+        }
+        rustc_hir::intravisit::walk_pat(self, p);
+    }
+    fn visit_expr(&mut self, e: &'tcx rustc_hir::Expr<'tcx>) {
+        if let rustc_hir::ExprKind::Struct(_, fields, _) = e.kind {
+            for f in fields {
+                if f.is_shorthand {
+                    self.shorthand_expr.insert(f.expr.span);
+                }
+            }
+        }
+        if let rustc_hir::ExprKind::Path(rustc_hir::QPath::Resolved(None, path)) = e.kind {
+            if let rustc_hir::def::Res::Local(id) = path.res {
+                let sh = self.shorthand_expr.contains(&e.span);
+                let name = self.tcx.hir_name(id).to_string();
+                let b = self.binds.entry(hid(id)).or_insert_with(|| Bind { name, decl: vec![], uses: vec![], param: false });
+                b.uses.push((path.span, sh));
+            }
+        }
+        rustc_hir::intravisit::walk_expr(self, e);
+    }
+}
+fn rename_facts(tcx: TyCtxt<'_>, out_dir: &str) {
+    let krate = tcx.crate_name(LOCAL_CRATE).to_string();
+    if krate.starts_with("build_script") {
+        return;
+    }
+    let sm = tcx.sess.source_map();
+    let mut all = Vec::new();
+    // one map for the whole crate: a closure body is a body owner of its own, but the locals it captures
+    // are declared in the enclosing body and share its HIR owner
+    let mut v = RenameV { tcx, binds: Default::default(), shorthand_expr: Default::default(), shorthand_pat: Default::default() };
+    let mut owner_of: std::collections::BTreeMap<(u32, u32), String> = Default::default();
+    for ldid in tcx.hir_body_owners() {
+        let body = tcx.hir_body_owned_by(ldid);
+        if tcx.def_span(ldid).from_expansion() {
+            continue;       // code generated by a derive / proc macro re-uses the spans of its input tokens
+        }
+        let is_fn = matches!(tcx.def_kind(ldid.to_def_id()), DefKind::Fn | DefKind::AssocFn);
+        let before: std::collections::BTreeSet<(u32, u32)> = v.binds.keys().cloned().collect();
+        for prm in body.params {
+            rustc_hir::intravisit::Visitor::visit_pat(&mut v, prm.pat);
+        }
+        if is_fn {
+            for (k, b) in v.binds.iter_mut() {
+                if !before.contains(k) {
+                    b.param = true;
+                }
+            }
+        }
+        rustc_hir::intravisit::Visitor::visit_expr(&mut v, body.value);
+        let owner = path_of(tcx, ldid.to_def_id());
+        for k in v.binds.keys() {
+            owner_of.entry(*k).or_insert_with(|| owner.clone());
+        }
+    }
+    {
+        for (k, b) in std::mem::take(&mut v.binds) {
+            let owner = owner_of.get(&k).cloned().unwrap_or_default();
+            let mut ok = !b.decl.is_empty();
+            let mut sites = Vec::new();
+            for (sp, sh, is_decl) in b.decl.iter().map(|x| (x.0, x.1, true)).chain(b.uses.iter().map(|x| (x.0, x.1, false))) {
+                if sp.from_expansion() {
+                    ok = false;
+                    break;
+                }
+                match sm.span_to_snippet(sp) {
+                    Ok(snip) if snip == b.name => {}
+                    _ => {
+                        ok = false;
+                        break;
+                    }
+                }
+                let lo = sm.lookup_byte_offset(sp.lo());
+                let file = match &lo.sf.name {
+                    rustc_span::FileName::Real(r) => match r.local_path() {
+                        Some(p) => p.to_string_lossy().to_string(),
+                        None => {
+                            ok = false;
+                            String::new()
+                        }
+                    },
+                    _ => {
+                        ok = false;
+                        String::new()
+                    }
+                };
+                sites.push(J::Obj(vec![
+                    ("file", s(file)),
+                    ("lo", J::Int(lo.pos.0 as i128)),
+                    ("len", J::Int(b.name.len() as i128)),
+                    ("shorthand", J::Bool(sh)),
+                    ("decl", J::Bool(is_decl)),
+                ]));
+            }
+            if b.name == "self" || b.name.starts_with('_') {
+                ok = false;
+            }
+            all.push(J::Obj(vec![
+                ("owner", s(owner.clone())),
+                ("name", s(b.name.clone())),
+                ("param", J::Bool(b.param)),
+                ("renamable", J::Bool(ok)),
+                ("sites", J::Arr(sites)),
+            ]));
+        }
+    }
+    let root = J::Obj(vec![("crate", s(krate.clone())), ("bindings", J::Arr(all))]);
+    let mut out = String::with_capacity(1 << 20);
+    root.write(&mut out);
+    let path = format!("{}/{}.rename.json", out_dir, krate);
+    std::fs::write(&path, out.as_bytes()).expect("write rename facts");
+}
+
 struct Cb;
 
 impl rustc_driver::Callbacks for Cb {
     fn after_analysis<'tcx>(&mut self, _c: &rustc_interface::interface::Compiler, tcx: TyCtxt<'tcx>) -> Compilation {
+        if let Ok(d) = std::env::var("RAGC_RENAME_DIR") {
+            rename_facts(tcx, &d);
+        }
         let out_dir = match std::env::var("RAGC_FACTS_DIR") {
             Ok(d) => d,
             Err(_) => return Compilation::Continue,
